@@ -300,6 +300,8 @@ pub struct Outcome {
     pub differing: Option<usize>,
     /// reach probe: iteration orders induced by the keys of this group's launches ("n:perm")
     pub orders: Vec<String>,
+    /// harness self-check: launches in which the mirror of `run` and the real `run` disagreed
+    pub mirror_mismatches: u64,
 }
 
 fn colour_override(colour: Colour) {
@@ -316,6 +318,7 @@ fn obs_inproc(
     plan: &Plan,
     step_budget: u64,
     orders: &mut Vec<String>,
+    mirror_mismatches: &mut u64,
 ) -> (LaunchObs, CallLog) {
     let Ok(source) = std::str::from_utf8(&spec.source) else {
         // `read_to_string` fails before any stage runs; mirror main's message shape minimally.
@@ -338,6 +341,16 @@ fn obs_inproc(
                 ];
                 match real {
                     Some(r) => {
+                        // Harness self-check, not part of the oracle: the 40-line mirror of `run`
+                        // used by the "stages" groups must print what the real `run` prints.
+                        let (m_status, m_out, m_err) = if check_only {
+                            (o.check_status, &o.check_out, &o.check_err)
+                        } else {
+                            (o.run_status, &o.run_out, &o.run_err)
+                        };
+                        if !o.capped && (m_status != r.status || *m_out != r.stdout || *m_err != r.stderr) {
+                            *mirror_mismatches += 1;
+                        }
                         fields.push(("status".to_owned(), r.status.to_string()));
                         fields.push(("stdout".to_owned(), r.stdout));
                         fields.push(("stderr".to_owned(), r.stderr));
@@ -397,6 +410,7 @@ pub fn run_spec(spec: &Spec, envs: &Envs, scratch_tag: &str, stop_at_first: bool
         logs: vec![],
         differing: None,
         orders: vec![],
+        mirror_mismatches: 0,
     };
     let dir = envs.work.join(scratch_tag);
     let path_arg = if spec.path_abs {
@@ -427,7 +441,9 @@ pub fn run_spec(spec: &Spec, envs: &Envs, scratch_tag: &str, stop_at_first: bool
 
     for (i, plan) in spec.plans.iter().enumerate() {
         let (obs, log) = match spec.tier {
-            Tier::InProc => obs_inproc(spec, &path_arg, &dir, plan, envs.step_budget, &mut out.orders),
+            Tier::InProc => {
+                obs_inproc(spec, &path_arg, &dir, plan, envs.step_budget, &mut out.orders, &mut out.mirror_mismatches)
+            }
             Tier::Exec => {
                 let launched = if spec.launcher == "fork" {
                     sim_exec::launch_forked(&envs.exec, &envs.exec.gram, &spec.form.argv(&path_arg), &dir, &dir, spec.colour, plan, &format!("l{i}"))
